@@ -82,21 +82,19 @@ func (l *xlim) allow(coin bool, now *big.Int, n int64) bool {
 	return false
 }
 
-// xnew mirrors x_new_gen true true: interval Period/Count in whole ns, clamped to 1 ns when that is 0
-// and Period >= 0 (7348cd5bb); primed with min(taken, count) (4e20ebf0e)
+// xnew mirrors x_new_gen true true true true: interval Period/Count in whole ns, every interval <= 0
+// is 1 ns (7348cd5bb, e448004d7); the limiter starts full (ca6594b47) and is primed with
+// min(taken, count) (4e20ebf0e)
 func xnew(s stateSpec, now *big.Int) *xbucket {
 	l := xlim{kind: xZero, burst: bi(int64(s.Max)), ival: bi(0), c: bi(0), last: bi(0)}
 	if s.Max > 0 {
 		i := s.Period / int64(s.Max) // Go division truncates toward zero, like Z.quot
-		if i == 0 && s.Period >= 0 {
+		if i <= 0 {
 			i = 1
 		}
-		if i <= 0 {
-			l.kind = xInf
-		} else {
-			l.kind = xNorm
-		}
+		l.kind = xNorm
 		l.ival = bi(i)
+		l.c = new(big.Int).Mul(l.burst, l.ival)
 	}
 	b := &xbucket{lim: l, st: s}
 	b.lim.allow(false, now, int64(min(s.Taken, s.Max)))
@@ -205,13 +203,13 @@ func (s *xsys) get(now *big.Int, k keySpec) (bool, stateSpec) {
 		}
 	case xZero:
 		taken = l.burst
-	default:
+	default: // rounded up (d872ef03d)
 		_, av, _ := l.avail(now)
 		taken = new(big.Int).Sub(new(big.Int).Mul(l.burst, l.ival), av)
-		taken.Div(taken, l.ival)
+		taken.Add(taken, l.ival).Sub(taken, bi(1)).Div(taken, l.ival)
 	}
-	taken = new(big.Int).Mod(taken, bi(1<<32))
-	st := b.st // the stored TakenTokens (input of the last override) is kept: nothing reads the recalculated one
+	taken = minB(taken, bi(1<<32-1)) // capped at MaxUint32
+	st := b.st                       // the stored TakenTokens (input of the last override) is kept: nothing reads the recalculated one
 	st.Taken = uint32(taken.Uint64())
 	return true, st
 }
